@@ -95,3 +95,35 @@ Definition ts_hyp_ok (pos : N) (r : replica) : bool :=
 (** [max {k | stamp k < T}] (0 if there is none) *)
 Definition expected_end (l0 : list sfile) (T : N) : N :=
   fold_left (fun m f => if (s_created f <? T) && (m <? s_max f) then s_max f else m) l0 0.
+
+(** ** C15: the hypothesis against the record of when each TXID was replicated
+
+    [rec] is the harness's own record [(k, time at which TXID k was replicated)]
+    (the header timestamp of the L0 file of [k] read when it was written, also
+    for TXIDs whose L0 file has since been deleted).  Every file of every level
+    — snapshots included — must be stamped no earlier than the replication time
+    of the newest transaction it contains, an L0 file exactly at it, and the
+    record is non-decreasing in TXID. *)
+Definition rec_stamp (rec : list (N * N)) (k : N) : option N :=
+  match find (fun p => fst p =? k) rec with Some p => Some (snd p) | None => None end.
+
+Fixpoint rec_mono (c : N) (rec : list (N * N)) : bool :=
+  match rec with [] => true | p :: tl => (c <=? snd p) && rec_mono (snd p) tl end.
+
+Definition file_not_before_contents (rec : list (N * N)) (f : sfile) : bool :=
+  match rec_stamp rec (s_max f) with
+  | Some t => (t <=? s_created f) && (negb (s_level f =? 0) || (s_created f =? t))
+  | None => false
+  end.
+
+Definition contents_ok (rec : list (N * N)) (r : replica) : bool :=
+  rec_mono 0 rec && forallb (file_not_before_contents rec) (flat r).
+
+Definition l0_complete (pos : N) (r : replica) : bool :=
+  (match r 0 with [] => false | f :: _ => s_min f =? 1 end) && l0_run_ok pos (r 0).
+
+(** what the correspondence run demands of every listing produced by the real
+    code on the real clock: [contents_ok], and — whenever all L0 files are
+    present — the hypothesis [ts_hyp_ok] of [ts_exact] itself *)
+Definition ts_hyp_real_ok (pos : N) (rec : list (N * N)) (r : replica) : bool :=
+  contents_ok rec r && (negb (l0_complete pos r) || ts_hyp_ok pos r).
